@@ -105,6 +105,15 @@ func run(raw json.RawMessage) lib.Case {
 }
 
 func run1(raw json.RawMessage) lib.Case {
+	var probe struct {
+		Fresh bool `json:"fresh"`
+	}
+	if json.Unmarshal(raw, &probe) == nil && probe.Fresh && theChild != nil {
+		// this scenario depends on what the process has done before: start a new one
+		theChild.stdin.Close()
+		theChild.cmd.Wait()
+		theChild = nil
+	}
 	if theChild == nil {
 		theChild = startChild()
 	}
